@@ -14,14 +14,22 @@ func (n *Nodis) newSet() ds.Value {
 func (n *Nodis) SAdd(key string, members ...string) int64 {
 	var v int64
 	_ = n.exec(func(tx *Tx) error {
+		v = n.sAdd(tx, key, members...)
+		return nil
+	})
+	return v
+}
+
+func (n *Nodis) sAdd(tx *Tx, key string, members ...string) int64 {
+	var v int64
+	{
 		meta := tx.writeKey(key, n.newSet)
 		v = meta.value.(*set.Set).SAdd(members...)
 		n.signalModifiedKey(key, meta)
 		n.notify(func() []patch.Op {
 			return []patch.Op{{Type: patch.OpTypeSAdd, Data: &patch.OpSAdd{Key: key, Members: members}}}
 		})
-		return nil
-	})
+	}
 	return v
 }
 
@@ -46,36 +54,53 @@ func (n *Nodis) SDiff(keys ...string) []string {
 	}
 	var v []string
 	_ = n.exec(func(tx *Tx) error {
-		tx.lockKeys(nil, keys...)
-		meta := tx.readKey(keys[0])
-		if !meta.isOk() {
-			return nil
-		}
-		otherSets := make([]*set.Set, 0, len(keys)-1)
-		for _, s := range keys[1:] {
-			metaX := tx.readKey(s)
-			if !metaX.isOk() {
-				continue
-			}
-			otherSets = append(otherSets, metaX.value.(*set.Set))
-		}
-		v = meta.value.(*set.Set).SDiff(otherSets...)
+		v = n.sDiff(tx, keys)
 		return nil
 	})
 	return v
 }
 
+func (n *Nodis) sDiff(tx *Tx, keys []string) []string {
+	tx.lockKeys(nil, keys...)
+	meta := tx.readKey(keys[0])
+	if !meta.isOk() {
+		return nil
+	}
+	otherSets := make([]*set.Set, 0, len(keys)-1)
+	for _, s := range keys[1:] {
+		metaX := tx.readKey(s)
+		if !metaX.isOk() {
+			continue
+		}
+		otherSets = append(otherSets, metaX.value.(*set.Set))
+	}
+	return meta.value.(*set.Set).SDiff(otherSets...)
+}
+
 // SDiffStore stores the difference between sets.
 func (n *Nodis) SDiffStore(destination string, keys ...string) int64 {
+	return n.sStore(destination, keys, n.sDiff)
+}
+
+// sStore replaces the destination by the result of a set operation. Operands and destination are
+// locked together: the result is computed from one snapshot of the operands and nobody sees the
+// destination between the removal of its old content and the arrival of the new one.
+func (n *Nodis) sStore(destination string, keys []string, op func(tx *Tx, keys []string) []string) int64 {
 	if len(keys) == 0 {
 		return 0
 	}
-	members := n.SDiff(keys...)
-	n.Del(destination)
-	if len(members) == 0 {
-		return 0
-	}
-	return n.SAdd(destination, members...)
+	var c int64
+	_ = n.exec(func(tx *Tx) error {
+		tx.lockKeys([]string{destination}, keys...)
+		members := op(tx, keys)
+		n.del(tx, destination)
+		if len(members) == 0 {
+			return nil
+		}
+		c = n.sAdd(tx, destination, members...)
+		return nil
+	})
+	return c
 }
 
 // SInter gets the intersection between sets.
@@ -83,41 +108,37 @@ func (n *Nodis) SInter(keys ...string) []string {
 	if len(keys) == 0 {
 		return nil
 	}
-	if len(keys) == 1 {
-		return n.SMembers(keys[0])
-	}
 	var v []string
 	_ = n.exec(func(tx *Tx) error {
-		tx.lockKeys(nil, keys...)
-		meta := tx.readKey(keys[0])
-		if !meta.isOk() {
-			return nil
-		}
-		otherSets := make([]*set.Set, 0, len(keys)-1)
-		for _, s := range keys[1:] {
-			setDs := tx.readKey(s)
-			if !setDs.isOk() {
-				// a missing key is the empty set: so is the intersection
-				return nil
-			}
-			otherSets = append(otherSets, setDs.value.(*set.Set))
-		}
-		v = meta.value.(*set.Set).SInter(otherSets...)
+		v = n.sInter(tx, keys)
 		return nil
 	})
 	return v
 }
 
+func (n *Nodis) sInter(tx *Tx, keys []string) []string {
+	tx.lockKeys(nil, keys...)
+	meta := tx.readKey(keys[0])
+	if !meta.isOk() {
+		return nil
+	}
+	if len(keys) == 1 {
+		return meta.value.(*set.Set).SMembers()
+	}
+	otherSets := make([]*set.Set, 0, len(keys)-1)
+	for _, s := range keys[1:] {
+		setDs := tx.readKey(s)
+		if !setDs.isOk() {
+			// a missing key is the empty set: so is the intersection
+			return nil
+		}
+		otherSets = append(otherSets, setDs.value.(*set.Set))
+	}
+	return meta.value.(*set.Set).SInter(otherSets...)
+}
+
 func (n *Nodis) SInterStore(destination string, keys ...string) int64 {
-	if len(keys) == 0 {
-		return 0
-	}
-	members := n.SInter(keys...)
-	n.Del(destination)
-	if len(members) == 0 {
-		return 0
-	}
-	return n.SAdd(destination, members...)
+	return n.sStore(destination, keys, n.sInter)
 }
 
 // SUnion gets the union between sets.
@@ -125,39 +146,39 @@ func (n *Nodis) SUnion(keys ...string) []string {
 	if len(keys) == 0 {
 		return nil
 	}
-	if len(keys) == 1 {
-		return n.SMembers(keys[0])
-	}
 	var v []string
 	_ = n.exec(func(tx *Tx) error {
-		tx.lockKeys(nil, keys...)
-		otherSets := make([]*set.Set, 0, len(keys))
-		for _, s := range keys {
-			setDs := tx.readKey(s)
-			if !setDs.isOk() {
-				continue
-			}
-			otherSets = append(otherSets, setDs.value.(*set.Set))
-		}
-		if len(otherSets) == 0 {
-			return nil
-		}
-		v = otherSets[0].SUnion(otherSets[1:]...)
+		v = n.sUnion(tx, keys)
 		return nil
 	})
 	return v
 }
 
+func (n *Nodis) sUnion(tx *Tx, keys []string) []string {
+	tx.lockKeys(nil, keys...)
+	if len(keys) == 1 {
+		meta := tx.readKey(keys[0])
+		if !meta.isOk() {
+			return nil
+		}
+		return meta.value.(*set.Set).SMembers()
+	}
+	otherSets := make([]*set.Set, 0, len(keys))
+	for _, s := range keys {
+		setDs := tx.readKey(s)
+		if !setDs.isOk() {
+			continue
+		}
+		otherSets = append(otherSets, setDs.value.(*set.Set))
+	}
+	if len(otherSets) == 0 {
+		return nil
+	}
+	return otherSets[0].SUnion(otherSets[1:]...)
+}
+
 func (n *Nodis) SUnionStore(destination string, keys ...string) int64 {
-	if len(keys) == 0 {
-		return 0
-	}
-	members := n.SUnion(keys...)
-	n.Del(destination)
-	if len(members) == 0 {
-		return 0
-	}
-	return n.SAdd(destination, members...)
+	return n.sStore(destination, keys, n.sUnion)
 }
 
 // SIsMember returns if member is a member of the set stored at key.
